@@ -324,7 +324,9 @@ def make_state(sp: VSpec, time0=T0):
             vid, plan, immutables.Map({RB.id: RB}), immutables.Map({RB.id: time0}), routes, 1
         )
     if k == 12:
-        return DispatchPoolingTrip.build(vid, (("r0", TripPhase.PICKUP), ("r0", TripPhase.DROPOFF)), ROUTE[(c, 2)])
+        # a plan over two waiting requests (r0 and r1 both start at C): enter records the vehicle on both, exit clears both
+        plan = (("r0", TripPhase.PICKUP), ("r1", TripPhase.PICKUP), ("r0", TripPhase.DROPOFF), ("r1", TripPhase.DROPOFF))
+        return DispatchPoolingTrip.build(vid, plan, ROUTE[(c, 2)])
     return None
 
 
@@ -445,7 +447,10 @@ def build_world(
             return None
         sim = sso.add_request_safe(sim, r0).unwrap()
     if r1_present:
-        sim = sso.add_request_safe(sim, R1).unwrap()
+        # a vehicle en route on a pooling plan is recorded on every request of the plan (DispatchPoolingTrip.enter)
+        pooled = [sp.vid for sp in specs if sp.kind == 12]
+        r1 = R1.assign_dispatched_vehicle(pooled[0], T0) if (pooled and r0_present and r0_disp == 1 and pooled[0] == "v0") else R1
+        sim = sso.add_request_safe(sim, r1).unwrap()
     w.sim = sim
     w.tot = totals
     w.ghost_c = {("s0", "LEVEL_2"): g_l2, ("s0", "DCFC"): g_dc, ("s0", "gas_pump"): 0, ("s1", "LEVEL_2"): s1_g}
